@@ -135,7 +135,7 @@ def replay(ctx, obj):
 
 
 def run(ctx):
-    explore(ctx, ctx.subrng("ext-d"), ctx.budget(500, 8000))
+    explore(ctx, ctx.subrng("ext-d"), ctx.budget(1200, 10000))
     if not ctx.violations:
         try:
             from . import c04
